@@ -30,10 +30,11 @@ Proof. intros k. exact (solve_after_batches o p ans k (init_st o)). Qed.
    recalculation flag is raised, so the characteristics queue is rebuilt from ALL intervals before the next selection), hence the
    next trial - and by iteration_inv every later one - is again placed by the decision rule on the full partition *)
 Theorem C16_search_continues_by_the_rule : forall s s1 x, AllInv o p s -> iteration o p s Raised = (s1, ObjectiveRaised x) ->
+  mind s1 = mind s /\      (* the reported accuracy is that of the completed trials: the selected interval was not subdivided *)
   AllInv o p s1 /\ forall z s2 x2, iteration o p s1 (Value z) = (s2, Done x2) -> AllInv o p s2 /\ Selected o p s1 s2 x2.
 Proof.
   intros s s1 x A H. pose proof (failure_keeps_invariant o L p zero_lt_half half_lt_one s s1 x A H) as A1.
-  split; [exact A1|]. intros z s2 x2 It. exact (iteration_inv o L p zero_lt_half half_lt_one s1 z s2 x2 A1 It).
+  split; [exact (iteration_raised_mind o p s s1 x H)|]. split; [exact A1|]. intros z s2 x2 It. exact (iteration_inv o L p zero_lt_half half_lt_one s1 z s2 x2 A1 It).
 Qed.
 End C16.
 Print Assumptions C16_failure_contained.
